@@ -173,11 +173,16 @@ TooManyPeers(T, S) == \E i \in S : Cardinality(SPPeers(T, i)) > 1
 \* ------------------------------------------------------------------ building operations
 NodeEl(name, type, site, rp) == E(NN, type, name, "", [Site |-> site, StitchNode |-> "false"], rp)
 
-AddNode(T, name, site, ntype, rp) ==
+\* caller-supplied ids (substrate models): "ids are distinct" whatever the class; the recorder marks elements created
+\* with an explicit id by the pseudo-property "~cid"
+CidUsed(T, cid) == cid # "" /\ \E p \in El(T) : "~cid" \in DOMAIN T.el[p].sp /\ T.el[p].sp["~cid"] = cid
+WithCid(e, cid) == IF cid = "" THEN e ELSE [e EXCEPT !.sp = Upd(@, "~cid", cid)]
+AddNode(T, name, site, ntype, rp, cid) ==
     IF Named(T, NN, name) \cap ViewNodes(T) # {} THEN Fail(T, TErr)          \* "Node names must be unique"
     ELSE IF ~ValidName(name) THEN Fail(T, VErr)
     ELSE IF Named(T, NN, name) # {} THEN Fail(T, QErr)                       \* same name as a facility
-    ELSE Ok([T EXCEPT !.el = Upd(T.el, name, NodeEl(name, ntype, site, rp))])
+    ELSE IF CidUsed(T, cid) THEN Fail(T, QErr)
+    ELSE Ok([T EXCEPT !.el = Upd(T.el, name, WithCid(NodeEl(name, ntype, site, rp), cid))])
 
 RemoveNode(T, name) ==
     IF Named(T, NN, name) \cap ViewNodes(T) = {} THEN Fail(T, TErr)
@@ -392,12 +397,13 @@ RemoveLink(T, name) ==
          IN  Ok(DelEls(T, {l} \cup sps))
 
 \* ---- node-level services and their interfaces (substrate)
-AddNodeService(T, n, name, nstype) ==
+AddNodeService(T, n, name, nstype, cid) ==
     IF ~Has(T, n) \/ Cls(T, n) # NN THEN Fail(T, "NoSuchElement")
     ELSE IF \E s \in KidsOf(T, n, NS) : T.el[s].name = name THEN Fail(T, TErr)
     ELSE IF ~ValidName(name) THEN Fail(T, VErr)
-    ELSE Ok([T EXCEPT !.el = Upd(T.el, Path(n, name), E(NS, nstype, name, n,
-                                   [Layer |-> ServiceConstraints[nstype].layer, StitchNode |-> "false"], <<>>))])
+    ELSE IF CidUsed(T, cid) THEN Fail(T, QErr)
+    ELSE Ok([T EXCEPT !.el = Upd(T.el, Path(n, name), WithCid(E(NS, nstype, name, n,
+                                   [Layer |-> ServiceConstraints[nstype].layer, StitchNode |-> "false"], <<>>), cid))])
 RemoveNodeService(T, n, name) ==
     IF ~Has(T, n) \/ Cls(T, n) # NN THEN Fail(T, "NoSuchElement")
     ELSE LET ss == {s \in KidsOf(T, n, NS) : T.el[s].name = name} IN
@@ -549,7 +555,7 @@ WithHandles(o, r) ==
                             hs |-> [j \in 1..Len(HandleArgs(o)) |->
                                       IF Has(r.st, HandleArgs(o)[j]) THEN NamesOf(r.st, KidsOf(r.st, HandleArgs(o)[j], CP)) ELSE {}]]]
 ApplyRaw(T, o) ==
-    CASE o.op = "AddNode"        -> AddNode(T, o.name, o.site, o.ntype, Fn(o.rp))
+    CASE o.op = "AddNode"        -> AddNode(T, o.name, o.site, o.ntype, Fn(o.rp), IF "cid" \in DOMAIN o THEN o.cid ELSE "")
       [] o.op = "RemoveNode"     -> RemoveNode(T, o.name)
       [] o.op = "AddComponent"   -> AddComponent(T, o.n, o.name, o.model)
       [] o.op = "AddStorage"     -> AddStorage(T, o.n, o.name)
@@ -568,7 +574,7 @@ ApplyRaw(T, o) ==
       [] o.op = "RemoveSubInterface" -> RemoveSubInterface(T, o.i, o.name)
       [] o.op = "AddLink"        -> AddLink(T, o.name, o.ltype, o.ifs)
       [] o.op = "RemoveLink"     -> RemoveLink(T, o.name)
-      [] o.op = "AddNodeService" -> AddNodeService(T, o.n, o.name, o.nstype)
+      [] o.op = "AddNodeService" -> AddNodeService(T, o.n, o.name, o.nstype, IF "cid" \in DOMAIN o THEN o.cid ELSE "")
       [] o.op = "RemoveNodeService" -> RemoveNodeService(T, o.n, o.name)
       [] o.op = "AddInterface"   -> AddInterface(T, o.s, o.name, o.itype)
       [] o.op = "Rename"         -> Rename(T, o.p, o.new)
